@@ -270,6 +270,88 @@ async def _drive_data(rig, case, out):
 # ---------------------------------------------------------------------------------------------------------------------
 # part 'interest'
 
+# ---------------------------------------------------------------------------------------------------------------------
+# part 'data2': one PIT node that survives a first Data packet, ONE validator object shared by two prefix Interests that
+# are answered by two DIFFERENT packets (found necessary by the seeded change C05-seed14: a verdict remembered per node
+# and validator was applied to the second packet)
+async def _drive_data2(rig, case, out):
+    loop = rig.loop
+    front = case['front']
+    await rig.start()
+    pfx = f'C05:{front}:data2:'
+    base = '/c05/two'
+    calls = []
+    lat = case['latency']
+    if front == 'v2':
+        async def shared(name, sig, ctx):
+            calls.append(bytes(name[-1]))
+            if lat:
+                await asyncio.sleep(lat / 1000.0)
+            return VR.PASS if bytes(enc.Component.get_value(name[-1])) == b'good' else VR.FAIL
+
+        async def accept_all(name, sig, ctx):
+            return VR.PASS
+    else:
+        async def shared(name, sig):
+            calls.append(bytes(name[-1]))
+            if lat:
+                await asyncio.sleep(lat / 1000.0)
+            return bytes(enc.Component.get_value(name[-1])) == b'good'
+
+        async def accept_all(name, sig):
+            return True
+
+    def express(validator, can_be_prefix, nonce, lifetime):
+        kw = dict(lifetime=lifetime, nonce=nonce, can_be_prefix=can_be_prefix)
+        if front == 'v2':
+            return loop.create_task(rig.app.express(base, validator, **kw))
+        return loop.create_task(rig.app.express_interest(base, validator=validator, **kw))
+
+    keeper = None
+    if case['keeper']:
+        keeper = express(accept_all, False, 0x0c050000, 4000)       # exact-match Interest: neither packet satisfies it
+    results = []
+    for k, which in enumerate(case['order']):
+        t = express(shared, True, 0x0c050001 + k, 400)
+        await al.settle(loop)
+        n0 = len(calls)
+        try:
+            await rig.inject(al.data_wire(f'{base}/{which}', which.encode()))
+        except Exception as e:
+            out.append((pfx + f'receive-raises:{al.exc_label(e)}@{al.lib_site(e)}', f'{al.exc_label(e)} escaped _receive on Data'))
+            return
+        await al.sleep_until(loop, loop.now_ms() + lat + 20)
+        await al.settle(loop)
+        if not t.done():
+            results.append((which, 'pending', None, len(calls) - n0))
+            t.cancel()
+            continue
+        exc = None if t.cancelled() else t.exception()
+        kind = 'cancelled' if t.cancelled() else al.classify(exc)[0]
+        results.append((which, kind, None if exc is not None or t.cancelled() else t.result(), len(calls) - n0))
+    for k, (which, kind, res, ncalls) in enumerate(results):
+        what = f'order {case["order"]}, keeper {case["keeper"]}, latency {lat} ms: packet #{k} ({which})'
+        if which == 'good':
+            if kind != 'data' or bytes(res[1] if front == 'v2' else res[2]) != b'good':
+                out.append((pfx + 'accepted-packet-not-returned', f'{what}: the shared validator accepts it, outcome {kind}'))
+        else:
+            if kind == 'data':
+                out.append((pfx + 'payload-returned-although-its-validator-rejects-it', f'{what}: returned to the application'))
+        if ncalls < 1:
+            out.append((pfx + 'validator-not-consulted-for-this-packet', f'{what}: the validator was called {ncalls} times for it'))
+    if keeper is not None:
+        if keeper.done():
+            out.append((pfx + 'exact-match-interest-completed-by-longer-data', 'the exact-match Interest ended although no packet has its name'))
+        keeper.cancel()
+    await al.settle(loop)
+    if rig.loop_errors:
+        cls, site = rig.describe_loop_error(rig.loop_errors[0])
+        out.append((pfx + f'loop-exception-handler:{cls}@{site}', f'background task died with {cls} in {site}'))
+    rig.app.shutdown()
+    await al.settle(loop)
+
+
+
 def fix_digest(wire: bytes) -> bytes:
     """recompute the ParametersSha256DigestComponent of an Interest after its parameters / signature were edited"""
     name, _p, _ap, sig = enc.parse_interest(wire)
@@ -466,6 +548,8 @@ def run_one(case) -> list:
     async def go(rig):
         if case['part'] == 'data':
             await _drive_data(rig, case, out)
+        elif case['part'] == 'data2':
+            await _drive_data2(rig, case, out)
         else:
             await _drive_interest(rig, case, out)
     res = al.run_case(go, case['front'])
@@ -518,6 +602,12 @@ def gen_cases(tier, rng):
     for mode in ('lib-default-good', 'lib-default-bad'):
         yield {'part': 'data', 'front': 'v1', 'mode': mode, 't_data': 5, 'ints': [['True', 0]]}
     yield {'part': 'data', 'front': 'v2', 'mode': 'none', 't_data': 5, 'ints': [['VR.PASS', 0]]}
+    # --- two different packets, one validator object, one PIT node (with and without an Interest that keeps the node alive)
+    for front in ('v2', 'v1'):
+        for order in (['good', 'bad'], ['bad', 'good'], ['good', 'good'], ['bad', 'bad'], ['good', 'bad', 'good']):
+            for keeper in (True, False):
+                for lat in (0, 5):
+                    yield {'part': 'data2', 'front': front, 'order': order, 'keeper': keeper, 'latency': lat}
     # --- interests
     forms = [('plain', 'ok'), ('param', 'ok'), ('param', 'bad-param'), ('param', 'bad-digest'), ('param', 'no-digest'),
              ('signed', 'ok'), ('signed', 'bad-param'), ('signed', 'bad-digest'), ('signed', 'bad-sig'),
